@@ -157,6 +157,20 @@ pub fn static_family() -> Vec<(String, Program)> {
             ],
         },
     ));
+    // P6: every builtin alias is usable as a type and means its documented definition
+    {
+        // (compile-only program: the witnesses are not anchored, the eq helpers of 64-byte arrays and Ctx8 would make
+        // the program - and the number of its near misses - needlessly large)
+        let mut stmts = vec![];
+        for (i, name) in crate::refmodel::BUILTIN_ALIASES.iter().enumerate() {
+            let def = crate::refmodel::builtin_alias(name).expect("builtin alias");
+            // let a<i>: <Alias> = <def>::into(witness::A<i>);  a cast between identical layouts: accepted iff the alias resolves
+            stmts.push(let_(Pat::Id(format!("a{i}")), alias(name), cast(def.clone(), Expr::Witness(format!("A{i}")))));
+            stmts.push(let_(Pat::Id(format!("b{i}")), def.clone(), var(&format!("a{i}"))));
+        }
+        let items = vec![Item::Fn(FnDef { name: "main".into(), params: vec![], ret: None, body: (stmts, None) })];
+        out.push(("P6-builtin-aliases".to_string(), Program { items }));
+    }
     // P5: match scoping: binders of one arm are not visible in the other arm; an outer variable with the name of
     // the left binder (at another type) is what the right arm sees
     {
